@@ -382,9 +382,13 @@ func Main(id, tier string, seed int64, verifDir string) int {
 	var mu sync.Mutex
 	fault := ""
 
+	ordinalsSeen := map[int64]int{} // final ordinal -> number of workers that finished with it
 	mergeOne := func(r *Result) {
 		mu.Lock()
 		defer mu.Unlock()
+		if r.Exhaustive {
+			ordinalsSeen[r.Counters["ordinals"]]++
+		}
 		for k, v := range r.Counters {
 			if k == "ordinals" {
 				if v > merged.Counters[k] {
@@ -493,6 +497,15 @@ func Main(id, tier string, seed int64, verifDir string) int {
 		wg.Wait()
 	}
 	merged.Violations = append(merged.Violations, crashes...)
+	// every worker walks the whole enumeration and takes its share of it: all of them must have
+	// counted the same number of cases, or the shares do not partition the space (a generator that
+	// deals cases inside a case it has been dealt)
+	if len(ordinalsSeen) > 1 && merged.Exhaustive && len(crashes) == 0 {
+		merged.Exhaustive = false
+		merged.Notes["harness_fault"] = fmt.Sprintf("workers counted different numbers of cases: %v", ordinalsSeen)
+		fmt.Printf("HARNESS-FAULT: %s: workers counted different numbers of cases (%v): the shares do not partition the enumeration\n", id, ordinalsSeen)
+		fault = "inconsistent sharding"
+	}
 
 	// known findings
 	known := loadKnown(filepath.Join(verifDir, "known_findings.jsonl"))
